@@ -12,6 +12,8 @@ from common import *
 import c08_catch_sites
 
 COQ_FILES = ['Lib/Str.v', 'Gen/C08CatchSites.v', 'C08/Model.v', 'C08/Proofs.v', 'C08/Props.v']
+# over the evaluator model (coq/theories/Expr): no node outcome is ever a raw Python exception; exists() turns failures into False
+COQ_FILES_EVAL = ['Lib/Str.v', 'Expr/StrOps.v', 'Expr/Date.v', 'Expr/Syntax.v', 'Expr/Funcs.v', 'Expr/Eval.v', 'C08/EvalProps.v']
 IMPL = os.path.join(os.path.dirname(os.path.abspath(__file__)), 'impl_c08.py')
 
 
@@ -228,14 +230,17 @@ def main(tier):
     tfails = regen_gen()
     res = run.proof_step(COQ_FILES, extra_trusted=['tools/c08_catch_sites.py (syntactic extractor)',
                                                    'harness/c08.py + impl_c08.py (ill-typed stream, deletion oracle)'])
+    res2 = run.proof_step(COQ_FILES_EVAL, extra_trusted=['coq/theories/Expr (hand model of the evaluator, tied to the code by the C04 correspondence)'])
     broken = []
     if tfails:
         run.cov['discharged'] = 0
         broken.append({'kind': 'translation-failure', 'detail': tfails})
     elif not res['ok']:
         broken.append({'kind': 'broken-obligation', 'detail': first_error(res['log'])})
-    if res['hygiene']:
-        broken.append({'kind': 'hygiene', 'detail': res['hygiene']})
+    elif not res2['ok']:
+        broken.append({'kind': 'broken-obligation', 'detail': first_error(res2['log'])})
+    if res['hygiene'] or res2['hygiene']:
+        broken.append({'kind': 'hygiene', 'detail': res['hygiene'] + res2['hygiene']})
 
     rnd = random.Random(run.seed)
     n_e, n_v, n_r = (250, 150, 40) if tier == 'quick' else (6000, 3000, 600)
@@ -253,6 +258,18 @@ def main(tier):
         cases.append({'kind': 'views', 'variables': [], 'views': [{'name': 'Bad', 'filter': ill}, {'name': 'Good', 'filter': 'total > 1'}],
                       'merchants': [{'name': 'M0', 'category': 'Food', 'subcategory': 'Cafe', 'tags': ['coffee'],
                                      'payments': [{'amount': 25.5, 'date': '2025-01-03'}, {'amount': 8.0, 'date': '2025-02-03'}]}]})
+    # systematic: a view whose LOCAL variable fails (or merely shadows) placed before a view that reads a same-named global /
+    # primitive — the later view must be unaffected (its result must equal the result with the failing view removed)
+    for ln, gdef, reader in [('monthly', 'total / months', 'monthly > 5 and months >= 1'), ('g', 'total * 2', 'g > 10'),
+                             ('lim', '10', 'total > lim'), ('total', None, 'total > 20'), ('months', None, 'months >= 1')]:
+        for bad_local in ['sum(by("month")) / months', 'category + 1', 'nope', 'total > "x"']:
+            for order in (0, 1):
+                vs = [{'name': 'Spiky', 'filter': f'{ln} > 1', 'locals': [(ln, bad_local)]}, {'name': 'Regular', 'filter': reader}]
+                cases.append({'kind': 'views', 'variables': [(ln, gdef)] if gdef else [], 'views': vs if order == 0 else vs[::-1],
+                              'merchants': [{'name': 'Grocer', 'category': 'Food', 'subcategory': 'x', 'tags': [],
+                                             'payments': [{'amount': 120.0, 'date': '2025-01-03'}, {'amount': 64.0, 'date': '2025-02-03'}]},
+                                            {'name': 'Kiosk', 'category': 'Fun', 'subcategory': 'x', 'tags': ['coffee'],
+                                             'payments': [{'amount': 8.0, 'date': '2025-03-03'}]}]})
     cases += [gen_engine_case(rnd) for _ in range(n_e)]
     cases += [gen_views_case(rnd) for _ in range(n_v)]
     wd = os.path.join(WORK, 'C08rows')
